@@ -38,6 +38,13 @@ def gen_base(rng, tier, index):
     case.pop("join_timeout", None)       # the property speaks about pools without join_timeout
     case.pop("no_sweep", None)
     case["calls"] = case["calls"][:rng.randint(1, 3)]
+    if case["pool"] == "functor" and index % 3 == 0:
+        # a plain pool whose workers carry a chunk limit (nobody replaces them): the limit still holds; the calls are kept
+        # small enough for the remaining capacity
+        total = sum(-(-c["n"] // c["chunk"]) for c in case["calls"])
+        case["functor_quota"] = max(1, -(-total // case["workers"])) + 1
+        for c in case["calls"]:
+            c["durations"] = {"mode": "hash", "t": 0.02}
     case["end_delay"] = rng.choice([0, 0.05, 0.15, 0.3])       # slow end(): an unjoined (replaced) worker is still in it
     case["begin_delay"] = rng.choice([0, 0, 0.05, 0.2])        # slow begin() in every second worker
     fault_kind = index % 5      # 0,1: none   2: begin   3: functor   4: none + ready between calls
